@@ -1,0 +1,20 @@
+//go:build verif
+
+// Machine-checked contracts (gowp, see /verif/DESIGN.md). Comment-only file:
+// nothing here is compiled into the package.
+
+package base
+
+//@ spec func stageOrd(s Stage) int = ite(s == "INIT", 1, ite(s == "ACCEPT", 3, 0))
+//@ spec func validStage(s Stage) bool = s == "INIT" || s == "ACCEPT"
+
+//@ global statesmap maplit
+
+//@ func (Stage).Compare
+//@   prop C06
+//@   pure
+//@   ensures [order] validStage(st) && validStage(b) ==> (r0 == 1 && stageOrd(st) > stageOrd(b)) || (r0 == -1 && stageOrd(st) < stageOrd(b)) || (r0 == 0 && st == b)
+//@   ensures [range] r0 == -1 || r0 == 0 || r0 == 1
+
+//@ global NilHeight const
+//@ global GenesisHeight const
